@@ -98,7 +98,7 @@ var rfcStatusCodes = func() []int {
 
 // wireStyle are the degrees of freedom the grammar leaves to a sender.
 type wireStyle struct {
-	KeyCase   []int  `json:"key_case"`  // per line: 0 as is, 1 upper, 2 lower, 3 alternating
+	KeyCase   []int  `json:"key_case"`  // per line: 0 as is, 1 upper, 2 lower, 3 alternating, 4 MIME title case, >=16 per-letter bit pattern (mode>>4)
 	Sep       []int  `json:"sep"`       // per line: 0 ": ", 1 ":", 2 ":  ", 3 ":\t", 4 " : "? (not used: space before colon is not allowed)
 	Trail     []int  `json:"trail"`     // per line: trailing LWS 0 none, 1 " ", 2 "\t "
 	Split     []bool `json:"split"`     // per line: a multi-valued field is sent as several lines
@@ -117,7 +117,27 @@ func styleAt[T any](s []T, i int) T {
 }
 
 func recase(k string, mode int) string {
+	if mode >= 16 { // per-letter pattern: bit i of mode>>4 set = letter i upper case
+		mask := mode >> 4
+		b := []byte(k)
+		for i := range b {
+			if mask>>(uint(i)%24)&1 == 1 {
+				b[i] = byte(strings.ToUpper(string(b[i]))[0])
+			} else {
+				b[i] = byte(strings.ToLower(string(b[i]))[0])
+			}
+		}
+		return string(b)
+	}
 	switch mode {
+	case 4: // MIME title case: first letter of each dash-separated part upper, the rest lower
+		parts := strings.Split(strings.ToLower(k), "-")
+		for i, p := range parts {
+			if p != "" {
+				parts[i] = strings.ToUpper(p[:1]) + p[1:]
+			}
+		}
+		return strings.Join(parts, "-")
 	case 1:
 		return strings.ToUpper(k)
 	case 2:
